@@ -105,16 +105,21 @@ class Url:
             rest = raw[len(SLASH + SLASH):]
         if scheme is not None or starts_with_double_slash:
             assert rest is not None
-            parts = rest.split(SLASH, 1)
-            username, password, host, port = Url._parse(parts[0])
+            # Authority ends at the first of "/", "?" or "#"
+            end = min(
+                [i for i in (rest.find(c) for c in (SLASH, b'?', b'#')) if i >= 0] or
+                [len(rest)],
+            )
+            authority, remainder = rest[:end], rest[end:]
+            username, password, host, port = Url._parse(authority)
             return cls(
                 scheme=scheme if not starts_with_double_slash else b'http',
                 username=username,
                 password=password,
                 hostname=host,
                 port=port,
-                remainder=None if len(parts) == 1 else (
-                    SLASH + parts[1]
+                remainder=None if remainder == b'' else (
+                    remainder if remainder[:1] == SLASH else SLASH + remainder
                 ),
             )
         username, password, host, port = Url._parse(raw)
